@@ -194,6 +194,34 @@ DEC_SPELLINGS = ["1.5", "01.5", "001.50", "1.50", ".5", "-.5", "-0.5", "-00.50",
                  "-12.25", "0.00390625", "63.99609375", "-64.0", "3.14159", "000.125", "-000.125", "7.0", "7.000", "10.01", "-.125"]
 
 
+# coordinate spellings of position marks: (spelling, (tile, half-tile flag)) ; None = no value, has to be rejected
+POS_COORD_SPELLINGS = [
+    ("3", (3, 0)), ("0", (0, 0)), ("-2", (-2, 0)), ("0x10", (16, 0)), ("0b11", (3, 0)), ("3.0", (3, 0)), ("3.00", (3, 0)), ("03.0", (3, 0)),
+    ("3.5", (3, 2)), ("3.50", (3, 2)), ("03.500", (3, 2)), (".5", (0, 2)), ("0.5", (0, 2)), ("-1.5", (-1, 2)), ("-1.0", (-1, 0)), (".0", (0, 0)),
+    ("1.05", None), ("1.005", None), (".05", None), ("-3.0500", None), ("1.25", None), ("1.55", None), ("2.6", None), ("1.4", None), ("1.51", None),
+]
+
+
+def pos_coord_case(lit, want):
+    detail = {"kind": "pos-coord", "literal": lit}
+    for which, text in (("x", f"def 0 {{ holder(Position<'m', {lit}, 7>); }}"), ("y", f"def 0 {{ holder(Position<'m', 7, {lit}>); }}")):
+        for comp_name, compiler in (("explorerscript", impl.compile_es), ("ssbscript", impl.compile_ssbs)):
+            try:
+                p = compiler(text).routine_ops[0][0].params[0]
+                got = (p.x_relative, p.x_offset) if which == "x" else (p.y_relative, p.y_offset)
+            except Exception as e:
+                got = f"{type(e).__name__}"
+            if want is None:
+                if not isinstance(got, str):
+                    return {"kind": "meaningless-coordinate-accepted", "detail": {**detail, "axis": which, "compiler": comp_name, "got": list(got)}}
+                if got not in ("SsbCompilerError", "ParseError", "ValueError"):
+                    return {"kind": "literal-rejected:pos-coord", "detail": {**detail, "axis": which, "compiler": comp_name, "error": got}}
+            elif got != want:
+                return {"kind": "literal-value-differs:pos-coord", "detail": {**detail, "axis": which, "compiler": comp_name,
+                                                                             "got": got if isinstance(got, str) else list(got), "want": list(want)}}
+    return None
+
+
 def spelling_case(kind, lit):
     """Compile `holder(<lit>);` and compare with the independent evaluation."""
     text = f"def 0 {{\n    holder({lit});\n}}\n"
@@ -238,6 +266,8 @@ def classify(v):
     """Root cause grouping for known_findings.json (development time)."""
     import re
     d = v["detail"]
+    if v["kind"].startswith("literal-value-differs") and d.get("kind") == "ml" and "\t" in d.get("literal", ""):
+        return "C04-tab-indentation"
     if v["kind"].startswith("print-parse") and d.get("kind") == "pos":
         if re.search(r"\\([n'\"]|$)", d["value"][0]) is not None:
             return "C04-mark-name-backslash"
@@ -276,7 +306,7 @@ def run_case(cid, case):
     if tag == "target":
         return routine_target_case(cid, case)
     kind, lit = case
-    v = spelling_case(kind, lit)
+    v = pos_coord_case(*lit) if kind == "pos-coord" else spelling_case(kind, lit)
     res = {"outcome": "violation" if v else "ok", "nt": cid}
     if v:
         res["viol"] = v
@@ -355,6 +385,8 @@ def run(tier, seed):
             yield ("lit", "int", lit), ("int", lit)
         for lit in DEC_SPELLINGS:
             yield ("lit", "dec", lit), ("dec", lit)
+        for lit, want in POS_COORD_SPELLINGS:
+            yield ("lit", "pos-coord", lit), ("pos-coord", (lit, want))
         for body in single_line_bodies(L):
             for q in ("'", '"'):
                 if defined_single_line(body, q):
@@ -363,6 +395,12 @@ def run(tier, seed):
             for q in ("'''", '"""'):
                 if q[0] * 3 not in body and not body.endswith(q[0]):
                     yield ("lit", "ml", q, body), ("ml", q + body + q)
+        # the same with tabs as indentation (the specification speaks of whitespace characters)
+        for n in range(1, L + 2):
+            for combo in itertools.product(("a", "\t", "\n"), repeat=n):
+                body = "".join(combo)
+                if "\t" in body and "\n" in body:
+                    yield ("lit", "ml", "tq", body), ("ml", "'''" + body + "'''")
     total = runner.explore(make_cases, run_case, timeout=60.0)
     return runner.finish(
         ID, LEVEL, tier, seed, total, t0,
@@ -373,7 +411,7 @@ def run(tier, seed):
              "switch header, if condition and assignment operand; integers (" + ("20 boundary values" if quick else "all 65536 16-bit values") +
              "), fixed point k/256 (" + ("every 7th of" if quick else "all") + " 32768 values), constants, position marks (names x "
              "half-tile offsets x coordinates), routine targets; part B (spelling -> value): integer spellings in 4 bases, 25 decimal "
-             f"spellings, all single-line literals with bodies of length <= {L} using only documented escapes in both quote "
+             f"spellings, 25 position-mark coordinate spellings (16 with a value, 9 that have none and must be rejected), all single-line literals with bodies of length <= {L} using only documented escapes in both quote "
              f"styles, all multi-line literals with bodies of length <= {L + 3} over {{a, blank, newline}} in both triple-quote "
              "styles against the documented dedent algorithm, and agreement of both compilers; an evaluation is one value "
              "(all its contexts) or one literal; non-trivial = value with a special character, or a literal",
